@@ -85,7 +85,13 @@ fn c07_case(p: &conc::LinProgram, reps: u32) -> CaseReport {
         }
         if let Some(msg) = out.failure {
             let sig = if msg.starts_with("open failed") { "open-failed" } else { "not-linearizable" };
-            failure = Some((sig.to_string(), msg.clone(), json!({"program": serde_json::to_value(&q).unwrap(), "histories": serde_json::to_value(&out.histories).unwrap()})));
+            let keep: Vec<Vec<crate::lin::HOp>> = if out.histories.len() > 12 {
+                // many rounds: keep the histories that do not linearize (padded to the key layout)
+                out.histories.iter().enumerate().map(|(hi, h)| if !crate::lin::check_key(h, q.keys[hi % q.keys.len()].explicit, q.persistent).ok { h.clone() } else { Vec::new() }).collect()
+            } else {
+                out.histories.clone()
+            };
+            failure = Some((sig.to_string(), msg.clone(), json!({"program": serde_json::to_value(&q).unwrap(), "histories": serde_json::to_value(&keep).unwrap()})));
             break;
         }
     }
@@ -96,10 +102,11 @@ fn c07_rejudge(doc: &Value) -> Option<String> {
     // deterministic re-judgement of the recorded history
     let prog: conc::LinProgram = serde_json::from_value(doc["replay"]["program"].clone()).ok()?;
     let hist: Vec<Vec<crate::lin::HOp>> = serde_json::from_value(doc["replay"]["histories"].clone()).ok()?;
-    for (ki, h) in hist.iter().enumerate() {
+    for (hi, h) in hist.iter().enumerate() {
+        let ki = hi % prog.keys.len();
         let r = crate::lin::check_key(h, prog.keys[ki].explicit, prog.persistent);
         if !r.ok {
-            return Some(format!("recorded history of key {ki} is not linearizable"));
+            return Some(format!("recorded history {hi} (key {ki}) is not linearizable"));
         }
     }
     None
@@ -442,8 +449,8 @@ pub struct Meta {
 fn meta(id: &str, tier: Tier) -> Meta {
     match id {
         "C07" => Meta {
-            cases: tier.pick(4000, 60_000),
-            rule: "proptest-generated concurrent programs: 2-4 threads x 2-6 calls (get, insert, delete, compare-and-swap, increment, insert-if-absent, JSON patch) on 1-3 shared keys; per key either explicit timestamps from a dense range 1..6 (ties and inversions are common) or automatic ones; memory-only and persistent (48-block device, optional thread calling flush() in a loop, cache on/off, both I/O paths); schedules: free, generated jitter tables, or up to three generated bounded parks at the named scheduling points (optimistic-read / guarded-swap / enqueue / batch / retirement windows); each program is repeated with varied schedule seeds. Every call is stamped (invocation, response) from one atomic counter, a final get per key is appended, and a WGL search with memoisation looks for a linearization of each key's history against the last-writer-wins specification with exactly the two permitted relaxations (conservative OlderTimestamp; compare-and-swap no-swap; plus StaleExtent in persistent mode) each requiring a genuinely overlapping or earlier-invoked accepted modification. Non-trivial: a history in which two calls of different threads on one key overlapped in real time and at least one was an accepted modification; distinct by history hash. Evaluations = program executions.",
+            cases: tier.pick(1600, 24_000),
+            rule: "proptest-generated concurrent programs: 2-4 threads x 2-6 calls (get, insert, delete, compare-and-swap, increment, insert-if-absent, JSON patch) on 1-3 shared keys; per key either explicit timestamps from a dense range 1..6 (ties and inversions are common) or automatic ones; memory-only and persistent (48-block device, optional thread calling flush() in a loop, cache on/off, both I/O paths); schedules: free, generated jitter tables, or up to three generated bounded parks at the named scheduling points (optimistic-read / guarded-swap / enqueue / batch / retirement windows); each program is repeated with varied schedule seeds; three programs in five are additionally run in round mode: the thread programs are repeated 20-200 times on fresh keys inside one store, all threads released together by a spin barrier with a generated per-round skew of 0-300 spins (one history per round and key), which multiplies the number of tight races per execution. Every call is stamped (invocation, response) from one atomic counter, a final get per key is appended, and a WGL search with memoisation looks for a linearization of each key's history against the last-writer-wins specification with exactly the two permitted relaxations (conservative OlderTimestamp; compare-and-swap no-swap; plus StaleExtent in persistent mode) each requiring a genuinely overlapping or earlier-invoked accepted modification. Non-trivial: a history in which two calls of different threads on one key overlapped in real time and at least one was an accepted modification; distinct by history hash. Evaluations = program executions.",
             assumptions: vec![
                 "schedules are sampled and steered, not enumerated; a recorded history is judged deterministically, re-execution is not bit-reproducible".into(),
                 "per key the program uses either only explicit or only automatic timestamps (mixed use is judged sequentially under C12)".into(),
